@@ -338,6 +338,11 @@ def main(argv=None):
             exits = sorted({obligations[i][1].meta.get("exit") for i in bad}, key=lambda x: (x is None, x))
             allowed = finding.get("exits")
             extra = [e for e in exits if allowed is not None and e not in allowed]
+            # exit points are also identified by the text of their source line, which survives edits elsewhere in the
+            # function (line offsets do not): a failing exit whose text is listed is the known one
+            srcs = finding.get("exit_srcs")
+            if srcs is not None:
+                extra = sorted({str(obligations[i][1].meta.get("exit_src")) for i in bad if obligations[i][1].meta.get("exit_src") not in srcs})
             too_many = finding.get("max_instances") is not None and len(bad) > finding["max_instances"]
             if not extra and not too_many:
                 known_hits.append((finding, witness))
